@@ -344,7 +344,7 @@ PROPS = {
    technique='exhaustive differential exploration over the configuration lattice: the same operation table (the drivers of the other properties, with their complete quick/thorough input domains) is compiled once per non-semantic configuration and every per-operation observation digest must equal the baseline build; a differing digest is bisected to the first differing input',
    text='Every non-semantic macro / language level / optimisation level / compiler is one point of the configuration lattice and one separate build of the same driver sources from the working tree. Each driver op accumulates a digest of every value GLM returned on every enumerated input (C01: every scalar and vector result of every function x L x T x Q; C11/C14: the std-versus-fallback sensitive functions on the float lattices; integer, packing, quaternion and geometric drivers). Digest equality with the baseline is required for every (op, configuration); results are expressed through named members so storage-order switches are compared by value. A configuration built with another compiler is compared with a baseline of that compiler; a reported difference must have identical input words in both builds.',
    rule='configurations x operation table (see coverage.operation_table) x the quick (thorough) domains of those drivers; evaluations are summed over all builds; a case is non-trivial as defined by its driver.'),
- 'C04': dict(src='drivers/c04.cpp', level='exploration', configs=['default', 'quat_wxyz', 'quat_ctor_xyzw', 'intr_sse2_defaligned', 'intr_avx2_defaligned_wxyz'], digest_groups=[['default', 'quat_wxyz', 'quat_ctor_xyzw']], digest_equal=['named_member_digest_float', 'named_member_digest_double'],
+ 'C04': dict(src='drivers/c04.cpp', level='exploration', configs=['default', 'quat_wxyz', 'quat_ctor_xyzw', 'lh', 'intr_sse2_defaligned', 'intr_avx2_defaligned_wxyz'], digest_groups=[['default', 'quat_wxyz', 'quat_ctor_xyzw']], digest_equal=['named_member_digest_float', 'named_member_digest_double'],
    technique='exhaustive enumeration of a finite rotation set (integer quaternions, icosians, axis-angle lattice, 10^-j neighbourhoods of every branch boundary and gimbal-lock set, each +-1..3 ulp) x vector lattice through every quaternion/matrix/axis-angle/Euler entry point, against a long-double Hamilton/Rodrigues reference, in both quaternion storage orders',
    text='q*v, mat3/4_cast, quat_cast (all four largest-component branches and ties), products, angle/axis/angleAxis, eulerAngles/quat(euler), qua(u,v) incl. parallel/opposite/nearly-opposite pairs, inverse/conjugate/normalize, all 12 gtx eulerAngleABC orders + 6 two-angle forms + yawPitchRoll/orientate with extractEulerAngle round trips, dual quaternions; the same source is built with the default and the WXYZ layout and a digest of every result expressed through named members must be identical in both. pow(q,y)/sqrt(q) against |q|^y (cos yt, n sin yt) incl. pow(q,0) = identity exactly, pow(q,2) = q*q, pow(q,-1) = inverse; aligned SIMD quaternions (SSE2; AVX2 with WXYZ) as further configurations.',
    rule='ROT (57 800 quick / 152 812 thorough quaternions) x VEC3L; ROT_small^2 for products; 55^3 (87^3) angle triples incl. +-pi/2 +-10^-j; NEAR_OPPOSITE pairs on both sides of the fallback threshold. Non-trivial = case inside the stated domain (unit quaternion up to rounding, non-degenerate vectors).'),
